@@ -1,0 +1,32 @@
+//  Copyright (c) 2026 Couchbase, Inc.
+//
+// Licensed under the Apache License, Version 2.0 (the "License");
+// you may not use this file except in compliance with the License.
+// You may obtain a copy of the License at
+//
+// 		http://www.apache.org/licenses/LICENSE-2.0
+//
+// Unless required by applicable law or agreed to in writing, software
+// distributed under the License is distributed on an "AS IS" BASIS,
+// WITHOUT WARRANTIES OR CONDITIONS OF ANY KIND, either express or implied.
+// See the License for the specific language governing permissions and
+// limitations under the License.
+
+//go:build verif
+
+package scorch
+
+import (
+	"sort"
+
+	index "github.com/blevesearch/bleve_index_api"
+)
+
+// simOrderAnalysisResults removes the only ordering in Batch that depends
+// on analysis worker timing and map iteration order, so that simulated
+// runs are reproducible.
+func simOrderAnalysisResults(results []index.Document) {
+	sort.SliceStable(results, func(i, j int) bool {
+		return results[i].ID() < results[j].ID()
+	})
+}
